@@ -253,25 +253,28 @@ def run(ctx):
 def _run(ctx, thorough, procs, scratch):
     rng = random.Random(ctx.seed * 7919 + 3)
     # harness-drawn choice vectors; the trees are derived from them inside the spec
-    nvec = 4000 if thorough else 400
+    nvec = 3000 if thorough else 150
     choices = [[rng.randrange(0, 1000000) for _ in range(40)] for _ in range(nvec)]
     cfile = os.path.join(scratch, "choices.json")
     with open(cfile, "w") as f:
         json.dump(choices, f)
 
     corpora = []   # (name, programs)
-    if thorough:
-        progs, envobj = tlc_corpus(ctx, "ExprSyntax_thorough.cfg", "all trees with <= 3 operators, every printing", slices=16,
-                                   procs=max(1, min(8, procs // 2)), timeout=3000)
-        corpora.append(("exhaustive<=3", progs))
-        progs4, _ = tlc_corpus(ctx, "ExprSyntax_rep4.cfg", "trees with 4 operators over representative operators, minimal printing",
-                               slices=8, procs=max(1, min(8, procs // 2)), timeout=3000)
-        corpora.append(("representative=4", progs4))
-    else:
-        progs, envobj = tlc_corpus(ctx, "ExprSyntax_quick.cfg", "all trees with <= 2 operators (full set) and 3 operators (representatives), every printing")
-        corpora.append(("exhaustive<=2+rep3", progs))
-    dprogs, _ = tlc_corpus(ctx, "ExprSyntax_derived.cfg", "trees derived from %d harness-drawn choice vectors" % nvec,
-                           env={"CHOICES_FILE": cfile})
+    # the TLC runs are independent: start the derived-tree run alongside the enumerations
+    with ThreadPoolExecutor(2) as bg:
+        fut = bg.submit(tlc_corpus, ctx, "ExprSyntax_derived.cfg", "trees derived from %d harness-drawn choice vectors" % nvec,
+                        1, {"CHOICES_FILE": cfile})
+        if thorough:
+            progs, envobj = tlc_corpus(ctx, "ExprSyntax_thorough.cfg", "all trees with <= 3 operators, every printing", slices=16,
+                                       procs=max(1, min(8, procs // 2)), timeout=3000)
+            corpora.append(("exhaustive<=3", progs))
+            progs4, _ = tlc_corpus(ctx, "ExprSyntax_rep4.cfg", "trees with 4 operators over representative operators, minimal printing",
+                                   slices=8, procs=max(1, min(8, procs // 2)), timeout=3000)
+            corpora.append(("representative=4", progs4))
+        else:
+            progs, envobj = tlc_corpus(ctx, "ExprSyntax_quick.cfg", "all trees with <= 2 operators (full set) and 3 operators (representatives), every printing")
+            corpora.append(("exhaustive<=2+rep3", progs))
+        dprogs, _ = fut.result()
     corpora.append(("derived", dprogs))
 
     envs_raw = envobj["envs"]
